@@ -16,6 +16,8 @@ pub enum AOp {
     GetMut,
     /// only as the last handle operation of a thread holding exactly one handle
     TryUnwrap,
+    /// like TryUnwrap, but a successfully unwrapped payload (it owns an alloc::Track) is forgotten: a leak on the Ok path only
+    TryUnwrapForget,
     PtrEq,
     RawRound,
     Inc,
@@ -63,6 +65,7 @@ struct St {
     flag: u8,
     res: Vec<Vec<i64>>,
     payload_drops: u8,
+    payload_forgotten: bool,
     leak_alloc: bool,
     track_live: Vec<bool>,
     finished: Vec<bool>,
@@ -70,7 +73,7 @@ struct St {
 
 fn init(p: &AProg) -> St {
     let n = p.threads.len();
-    St { pc: vec![0; n], handles: vec![1; n], count: n as i32, flag: 0, res: vec![vec![]; n], payload_drops: 0, leak_alloc: false, track_live: vec![true; n], finished: vec![false; n] }
+    St { pc: vec![0; n], handles: vec![1; n], count: n as i32, flag: 0, res: vec![vec![]; n], payload_drops: 0, payload_forgotten: false, leak_alloc: false, track_live: vec![true; n], finished: vec![false; n] }
 }
 
 /// One step of thread t (each op is atomic; the end of a thread drops its remaining handles one by one and its Track value).
@@ -121,6 +124,17 @@ fn step_obs(p: &AProg, s: &St, t: usize, flag_seen: Option<u8>) -> Option<(St, O
                 ns.count = 0;
                 ns.handles[t] -= 1;
                 ns.payload_drops += 1;
+            } else {
+                res = Some(0);
+            }
+        }
+        AOp::TryUnwrapForget => {
+            if s.count == 1 {
+                res = Some(1);
+                ns.count = 0;
+                ns.handles[t] -= 1;
+                ns.leak_alloc = true;
+                ns.payload_forgotten = true;
             } else {
                 res = Some(0);
             }
@@ -191,7 +205,9 @@ pub fn reference(p: &AProg, budget: usize) -> Option<ARef> {
         }
         if !any {
             if s.count > 0 {
+                // the payload owns an alloc::Track: a leaked Arc leaks it too, loom may name either
                 terms.insert(ATerm::LeakArc);
+                terms.insert(ATerm::LeakAlloc);
             }
             if s.leak_alloc {
                 terms.insert(ATerm::LeakAlloc);
@@ -277,7 +293,11 @@ pub fn gen(rng: &mut Rng, leaks: bool, panic_in_drop: bool, tier: u8) -> AProg {
                     4 => GetMut,
                     5 => {
                         if last && held == 1 && incs == 0 {
-                            TryUnwrap
+                            if leaks && rng.chance(1, 2) {
+                                TryUnwrapForget
+                            } else {
+                                TryUnwrap
+                            }
                         } else {
                             continue;
                         }
@@ -407,6 +427,7 @@ pub fn enumerate(k: usize) -> Vec<AProg> {
 // ---------------------------------------------------------------------------------------------
 
 struct Payload {
+    _owned: loom::alloc::Track<u8>,
     cell: loom::cell::UnsafeCell<u64>,
     drops: SArc<std::sync::atomic::AtomicUsize>,
     panic_in_drop: bool,
@@ -455,6 +476,19 @@ fn exec(p: &AProg, t: usize, first: loom::sync::Arc<Payload>, track: loom::alloc
                     Ok(pl) => {
                         res = 1;
                         drop(pl);
+                    }
+                    Err(h) => {
+                        res = 0;
+                        hs.push(h);
+                    }
+                }
+            }
+            AOp::TryUnwrapForget => {
+                let h = hs.pop().unwrap();
+                match Arc::try_unwrap(h) {
+                    Ok(pl) => {
+                        res = 1;
+                        std::mem::forget(pl);
                     }
                     Err(h) => {
                         res = 0;
@@ -573,7 +607,7 @@ pub fn run_loom(p: &AProg, iter_cap: usize) -> ARun {
             }
             d3.store(0, std::sync::atomic::Ordering::SeqCst);
             let flag = SArc::new(loom::sync::atomic::AtomicUsize::new(0));
-            let a = loom::sync::Arc::new(Payload { cell: loom::cell::UnsafeCell::new(1), drops: d3.clone(), panic_in_drop: p2.panic_in_drop });
+            let a = loom::sync::Arc::new(Payload { _owned: loom::alloc::Track::new(0), cell: loom::cell::UnsafeCell::new(1), drops: d3.clone(), panic_in_drop: p2.panic_in_drop });
             // every handle and tracked value a child owns is created before the first spawn
             let clones: Vec<_> = (1..n).map(|_| a.clone()).collect();
             let tracks: Vec<_> = (0..n).map(|i| loom::alloc::Track::new(i as u32)).collect();
@@ -620,6 +654,9 @@ fn core(tier: u8) -> &'static Vec<AProg> {
         v.push(ap(vec![vec![TryUnwrap], vec![TryUnwrap]]));
         v.push(ap(vec![vec![GetMut, Drop], vec![Clone, Drop, Drop]]));
         v.push(ap(vec![vec![Forget], vec![Drop]]));
+        v.push(ap(vec![vec![TryUnwrapForget], vec![Drop]]));
+        v.push(ap(vec![vec![Drop], vec![TryUnwrapForget]]));
+        v.push(ap(vec![vec![TryUnwrapForget], vec![Count, Drop], vec![Drop]]));
         v.push(ap(vec![vec![SetFlag], vec![DropOrForgetIfFlag]]));
         v.push(ap(vec![vec![Inc, Count, Dec], vec![Count, Drop]]));
         v.push(ap(vec![vec![RawRound, Count], vec![RawRound, Drop]]));
